@@ -360,6 +360,14 @@ pub fn verify_weak_signature_stormlib<R: Read + std::io::Seek>(
     let n = BigUint::from_bytes_be(&public_key.n().to_bytes_be());
     let e = BigUint::from_bytes_be(&public_key.e().to_bytes_be());
 
+    // RSA verification (RSAVP1) only accepts a signature representative below the
+    // modulus: `s` and `s + k*n` give the same result, so a larger value would be a
+    // different byte string that still verifies
+    if signature_int >= n {
+        log::debug!("Signature value is not below the RSA modulus");
+        return Ok(false);
+    }
+
     // Perform RSA operation: signature^e mod n
     let decrypted = signature_int.modpow(&e, &n);
     let mut decrypted_bytes = decrypted.to_bytes_be();
@@ -417,6 +425,14 @@ pub fn verify_weak_signature<R: Read>(
     let n = BigUint::from_bytes_be(&public_key.n().to_bytes_be());
     let e = BigUint::from_bytes_be(&public_key.e().to_bytes_be());
 
+    // RSA verification (RSAVP1) only accepts a signature representative below the
+    // modulus: `s` and `s + k*n` give the same result, so a larger value would be a
+    // different byte string that still verifies
+    if signature_int >= n {
+        log::debug!("Signature value is not below the RSA modulus");
+        return Ok(false);
+    }
+
     // Perform RSA operation: signature^e mod n
     let decrypted = signature_int.modpow(&e, &n);
     let decrypted_bytes = decrypted.to_bytes_be();
@@ -459,6 +475,14 @@ pub fn verify_strong_signature<R: Read>(
     let signature_int = BigUint::from_bytes_be(&signature_be);
     let n = BigUint::from_bytes_be(&public_key.n().to_bytes_be());
     let e = BigUint::from_bytes_be(&public_key.e().to_bytes_be());
+
+    // RSA verification (RSAVP1) only accepts a signature representative below the
+    // modulus: `s` and `s + k*n` give the same result, so a larger value would be a
+    // different byte string that still verifies
+    if signature_int >= n {
+        log::debug!("Signature value is not below the RSA modulus");
+        return Ok(false);
+    }
 
     // Perform RSA operation: signature^e mod n
     let decrypted = signature_int.modpow(&e, &n);
